@@ -448,6 +448,18 @@ def run_loop(case: dict[str, Any]) -> dict[str, Any]:
         if rng.random() < 0.25:
             d['when'] = True
         decls.append(d)
+    rr = random.Random(rng.random())
+    restart = rr.random() < 0.4
+    if restart:
+        # resume handlers with criteria, and an operator restart: they run for the objects met at the start whose criteria hold THEN (cause kind:
+        # resuming), not for a later change that makes the criteria hold
+        for j in range(rr.randint(1, 2)):
+            d2: dict[str, Any] = {'kind': 'resume', 'id': f'r{j}'}
+            if rr.random() < 0.8:
+                d2['labels'] = rr.choice([{'l': 'a'}, {'l': '$PRESENT'}, {'l': '$ABSENT'}, {'l': 'b'}])
+            if rr.random() < 0.3:
+                d2['when'] = True
+            decls.append(d2)
     if rng.random() < 0.5:
         # the same function under the same id twice, with different (both satisfiable) filters
         decls.append({'kind': 'update', 'id': 'dup', 'fnname': 'dup'})
@@ -480,6 +492,15 @@ def run_loop(case: dict[str, Any]) -> dict[str, Any]:
         tl.append([t, 'edit', nm, patch])
     if rng.random() < 0.5:
         tl.append([round(t + 3, 3), 'delete', 'o1'])
+    if restart:
+        # the restart falls between two edits; afterwards a quiet stretch, then edits that may turn the resume handlers' criteria true
+        t_r = round(rr.choice([5.5, 8.5, 11.5]), 3)
+        tl += [[t_r, 'stop_wait', 'op1'], [round(t_r + 0.4, 3), 'start', 'op2']]
+        t2 = max(t, t_r) + 6.0
+        for k in range(rr.randint(1, 3)):
+            t2 = round(t2 + rr.choice([3.0, 5.0]), 3)
+            tl.append([t2, 'edit', rr.choice(['o1', 'o2']), rr.choice([{'metadata': {'labels': {'l': rr.choice(['a', 'b', None])}}}, {'spec': {'g': rr.choice([0, 1])}}, {'spec': {'other': 100 + k}}])])
+        tl.sort(key=lambda x: x[0])
     desc = {'seed': case['seed'], 'handlers': specs, 'timeline': tl, 'quiet': 8.0, 'horizon': 200.0, 'lifecycle': 'all_at_once',
             'settings': {'queueing__idle_timeout': 1.0, 'persistence__consistency_timeout': 1.0}}
     w = run_world_shared(desc)
@@ -497,7 +518,7 @@ def run_loop(case: dict[str, Any]) -> dict[str, Any]:
             if d['reason'] not in ('create', 'update', 'delete'):
                 continue
             g_next = ds[i + 1]['g'] if i + 1 < len(ds) else 1 << 60
-            invoked = [c['h'] for c in ix.calls if c['uid'] == uid and d['g'] < c['g'] < g_next]
+            invoked = [c['h'] for c in ix.calls if c['uid'] == uid and d['g'] < c['g'] < g_next and ix.specs.get(c['h'], {}).get('kind') != 'resume']
             body = w.body_at(uid, d['rv']) or {}
             labels = (body.get('metadata') or {}).get('labels') or {}
             old_f = ((d.get('old') or {}).get('spec') or {}).get('f', ABSENT) if d.get('old') is not None else ABSENT
@@ -522,6 +543,45 @@ def run_loop(case: dict[str, Any]) -> dict[str, Any]:
             if sorted(invoked) != sorted(want):
                 viol.append({'mech': 'invoked-set-mismatch', 'msg': f"{uid} {d['reason']} (rv={d['rv']}): invoked {invoked}, the declared criteria select {want}; state {state}",
                              'witness': {'declarations': decls}})
+    # resume handlers: the cause kind "resuming" holds at the object's first processing after the start of an operator process only. At the boundary: the
+    # FIRST invocation of a resume handler for an object never comes after the object has been at rest -- no request of this operator for it, none of its
+    # handlers running, no progress record on it -- for seconds after this operator first met it.
+    from kv.oracles import operator_feed
+    resumes_checked = 0
+    for inc_name in w.incs:
+        feed = operator_feed(w, inc_name)
+        for uid in ix.uids:
+            evs = [e for e in feed if e['uid'] == uid]
+            if not evs:
+                continue
+            rcalls = sorted((c for c in ix.calls if c['inc'] == inc_name and c['uid'] == uid and ix.specs.get(c['h'], {}).get('kind') == 'resume'), key=lambda c: c['g'])
+            firsts: dict[str, dict[str, Any]] = {}
+            for c in rcalls:
+                firsts.setdefault(c['h'], c)
+            for h, c0 in firsts.items():
+                resumes_checked += 1
+                trig = [e for e in evs if e['t'] <= c0['t'] + 1e-9]
+                t_ev = trig[-1]['t'] if trig else evs[0]['t']
+                acts = [evs[0]['t']]
+                acts += [r.t for r in w.requests if r.client == inc_name and getattr(r, 'landed_uid', None) == uid and r.kind == 'patch' and r.t < t_ev - 1e-9]
+                acts += [x['t'] for x in w.events if x.get('k') in ('call', 'ret') and x.get('inc') == inc_name and x.get('uid') == uid and x['t'] < t_ev - 1e-9]
+                rest = t_ev - max(acts)
+                before = w.body_at(uid, trig[-1]['rv'] - 1) if trig else None
+                pending = before is not None and any(ix.sv.record(before, hh) is not None for hh in ix.specs)
+                # An object that matched NO handler so far is left alone entirely (stealth: not even remembered as handled), and its resuming comes with its
+                # first handled change -- that is the framework's reading of "first processing". So the rest only counts after a pass in which some
+                # handler's standing criteria (labels, annotations, when; declarations without field criteria only) held for the object.
+                def prematched(dx: dict[str, Any]) -> bool:
+                    b = w.body_at(uid, dx['rv']) or {}
+                    st = {'labels': ((b.get('metadata') or {}).get('labels') or {}), 'g': (b.get('spec') or {}).get('g'), 'old_f': 'q',
+                          'new_f': (b.get('spec') or {}).get('f', ABSENT), 'deleting': False}
+                    return any(ref_match({k: v2 for k, v2 in dd.items() if k not in ('old', 'new', 'value', 'field', 'kind')} | {'kind': 'event'}, 'event', st)
+                               for dd in decls if not dd.get('field'))
+                real_pass = any(dx['inc'] == inc_name and dx['uid'] == uid and dx['t'] <= t_ev - 2.5 and dx['rv'] and str(dx['rv']).isdigit() and prematched(dx) for dx in detects)
+                if rest >= 2.5 and not pending and len(trig) > 1 and real_pass:
+                    viol.append({'mech': 'resume-handler-after-first-episode', 'msg': f"{h} first ran for {uid} at t={c0['t']} (reason given: {c0.get('reason')}), triggered by what {inc_name} was shown at t={t_ev}, "
+                                         f"although {inc_name} had met the object at t={evs[0]['t']} and the object had been at rest for {round(rest, 3)}s since", 'witness': {'declarations': decls}})
+                    break
     # stealth: an object which never matched anything gets zero requests
     stealth = 0
     for uid in ix.uids:
@@ -544,7 +604,7 @@ def run_loop(case: dict[str, Any]) -> dict[str, Any]:
             if touched:
                 viol.append({'mech': 'stealth-broken', 'msg': f'{uid} never matched any handler but the operator patched it: {touched[0].brief()}', 'witness': {'declarations': decls}})
     sig = hashlib.sha1(json.dumps([decls, tl], sort_keys=True, default=str).encode()).hexdigest()[:16]
-    return {'violations': viol, 'cov': {'loop_causes_compared': compared, 'stealth_objects': stealth}, 'sig': sig, 'nontrivial': compared > 0,
+    return {'violations': viol, 'cov': {'loop_causes_compared': compared, 'stealth_objects': stealth, 'first_resume_invocations_checked': resumes_checked}, 'sig': sig, 'nontrivial': compared > 0,
             'sample': {'declarations': decls, 'timeline': tl} if case['name'] == 'loop0' else None, 'trace': trace_lines(w) if case.get('_verbose') else None}
 
 
